@@ -437,6 +437,10 @@ class Emitter:
             def k1(t, ty, env1):
                 if ty == BOOL:
                     return k("(negb %s)" % t, BOOL, env1)
+                if is_int(ty) and not is_signed(ty) and ty[1] in WIDTH:
+                    # `!x` on an unsigned integer: complement at the width of the type
+                    # (`a & !b` reads N.land a (N.lnot b w), which is N.ldiff a b for a < 2^w)
+                    return k("(N.lnot %s %d)" % (t, WIDTH[ty[1]]), ty, env1)
                 raise EmitError("bitwise not on %r" % (ty,))
             return self.expr(e.e, env, k1)
         if e.op == "-":
@@ -630,6 +634,10 @@ class Emitter:
             return k("(N.lxor %s %s)" % (a, b), ty, env)
         if op == ">>":
             return k("(N.shiftr %s %s)" % (a, b), ty, env)
+        if op == "<<" and self.v.get("checked_shl") and w in WIDTH:
+            # optional vocabulary key `checked_shl`: name of  w a i |-> option N  (None = the shift amount
+            # is not below the width: a debug build panics)
+            return self.bind("%s %d %s %s" % (self.v["checked_shl"], WIDTH[w], a, b), ty, env, k, hint="sh")
         if op == "<<":
             wd = WIDTH.get(w)
             return k("(N.shiftl %s %s mod %d)" % (a, b, 2 ** wd), ty, env)
@@ -712,8 +720,28 @@ class Emitter:
             return self.expr(e.rhs, env, lambda t, ty, env1: self.write_place(e.lhs, t, env1, lambda env2: k("tt", UNIT, env2)),
                              ) if e.rhs.kind != "int" else self.assign_lit(e, env, k)
         bop = e.op[:-1]
+        oa = self.op_assign_shape(e, env)
+        if oa is not None:
+            # optional struct key `op_assign: {"|=": <key of a translated `&mut self` fn>}`: the operator trait's
+            # method (BitOrAssign::bitor_assign ..) is called on the place
+            return self.call_shape(oa, e.lhs, [e.rhs], env, k)
         return self.expr(N("binary", op=bop, l=e.lhs, r=e.rhs), env,
                          lambda t, ty, env1: self.write_place(e.lhs, t, env1, lambda env2: k("tt", UNIT, env2)))
+
+    def op_assign_shape(self, e, env):
+        """shape of the translated operator-assignment method when the place is a vocabulary struct that names one"""
+        if not any("op_assign" in st for st in self.v.get("structs", {}).values()):
+            return None
+        pr = self.try_pure(e.lhs, env)
+        if pr is None or pr[1][0] != "struct":
+            return None
+        key = self.v["structs"][pr[1][1]].get("op_assign", {}).get(e.op)
+        if key is None:
+            return None
+        shape = self.fn_shapes.get(key)
+        if shape is None:
+            raise EmitError("operator %s on %s: %s is not translated (yet)" % (e.op, pr[1][1], key))
+        return shape
 
     def assign_lit(self, e, env, k):
         # the literal adopts the type of the place
@@ -1721,6 +1749,11 @@ class Emitter:
                     for a in x.args:
                         if a.kind == "path" and len(a.segs) == 1 and a.segs[0] in env.vars and env.vars[a.segs[0]].mut == "ref":
                             add(a.segs[0])
+                elif x.kind == "macro" and self.v.get("macro_writes"):
+                    # optional vocabulary key `macro_writes`: callable(em, macro node) -> names of the variables the
+                    # macro call assigns (`write!(f, ..)`: f); macro arguments are tokens, not AST
+                    for n in self.v["macro_writes"](self, x):
+                        add(n)
                 elif x.kind == "call":
                     # a `&mut` variable passed on by name
                     for a in x.args:
@@ -1856,7 +1889,10 @@ class Emitter:
             old = self.ctl
             oldpm = self.pure_mode
             self.pure_mode = 0
-            self.ctl = Ctl((lambda envx, t, ty: "Some (LRet %s)" % t) if ret else old.ret,
+            # optional vocabulary key `for_ret_state`: a `return` inside the loop carries the loop variables
+            # (as `loop_ret_state` does for while loops); without it they keep their values from before the loop
+            rs = bool(self.v.get("for_ret_state"))
+            self.ctl = Ctl(((lambda envx, t, ty: "Some (LRet (%s, %s))" % (tup(envx), t)) if rs else (lambda envx, t, ty: "Some (LRet %s)" % t)) if ret else old.ret,
                            lambda envx: "Some (%s %s)" % (brk, tup(envx)), lambda envx: "Some (%s %s)" % (nxt, tup(envx)))
             if not ret:
                 # a `return` cannot occur (has_return is false)
@@ -1876,6 +1912,11 @@ class Emitter:
             v = self.fresh("rv")
             if self.pure_mode:
                 raise NeedsBind()
+            if rs:
+                s3 = self.fresh("st")
+                return "%s <- for_list %s %s %s ;;\nmatch %s with\n| inl %s =>\n%s\n| inr (%s, %s) =>\n%s\nend" % (
+                    r, fterm, lst, init, r, s2, ind(self.unpack_state(st, s2, env1, lambda env4: k("tt", UNIT, env4)), 4),
+                    s3, v, ind(self.unpack_state(st, s3, env1, lambda env4: self.ctl.ret(env4, v, UNKNOWN)), 4))
             return "%s <- for_list %s %s %s ;;\nmatch %s with\n| inl %s =>\n%s\n| inr %s =>\n%s\nend" % (
                 r, fterm, lst, init, r, s2, ind(self.unpack_state(st, s2, env1, lambda env4: k("tt", UNIT, env4)), 4),
                 v, ind(self.ctl.ret(env1, v, UNKNOWN), 4))
